@@ -44,13 +44,16 @@ def dropBlankBack (ls : List Bytes) : List Bytes := (dropBlankFront ls.reverse).
 
 def stripIndent (n : Nat) (l : Bytes) : Bytes := l.drop n   -- `len < n` gives "" either way
 
-/-- which lines take part in the common indent: the Go code uses all of them. -/
+/-- the common indent is taken over every line except the first -/
 def blockStringValue (raw : Bytes) : Bytes :=
   let lines := splitLines raw
   let lines' :=
-    match commonIndent lines, lines with
-    | some n, first :: others => first :: others.map (stripIndent n)
-    | _, ls => ls
+    match lines with
+    | first :: others =>
+      (match commonIndent others with
+       | some n => first :: others.map (stripIndent n)
+       | none => lines)
+    | [] => lines
   joinLines (dropBlankBack (dropBlankFront lines'))
 
 end Gql.Lexer
